@@ -129,7 +129,7 @@ theorem fsOk_nonBlank (fs : FS) : FSOk nbq fs := fun _ _ nodes _ hp => by
   exact parseLines_noBlank _ nodes hp
 
 /-- the C09 instance: nothing is asked of the output -/
-theorem hspec_nonBlank : HSpec nbq (fun _ => True) :=
+theorem hspec_nonBlank : HSpec nbq (fun _ => True) (fun _ => True) :=
   ⟨fun s _ h => splitWs1_of_nonBlank s h, by intros; trivial, by intros; trivial⟩
 
 end Duckling
